@@ -87,6 +87,15 @@ def desugar(loc, relfile, fn_paths, rules, _pass=0, optional=()):
                     rewrites.append((a, b, new))
                     records.append({"fn": fp, "rule": "D61 S.get_domains().map(|v| E).collect::<Vec<_>>()  =>  { let d = S.pv_domains(); push loop over d }   (pv_domains: the vector of the domain ids the iterator yields, in order)",
                                     "original": src[a:b], "rewritten": new})
+            if "D64" in rules:
+                # (E as f64 / 2.0).floor() as i32  =>  pv_half_floor(E)   (E a non-negative i32: exact in f64)
+                seg = src[it["start"]:it["end"]]
+                for m in re.finditer(r"\(([^()]*(?:\([^()]*\)[^()]*)*) as f64 / 2\.0\)\.floor\(\) as i32", seg):
+                    a, b = it["start"] + m.start(), it["start"] + m.end()
+                    new = f"pv_half_floor({m.group(1)})"
+                    rewrites.append((a, b, new))
+                    records.append({"fn": fp, "rule": "D64 (E as f64 / 2.0).floor() as i32  =>  pv_half_floor(E)   (E / 2 for a non-negative i32 E; exact in f64)",
+                                    "original": src[a:b], "rewritten": new})
             if "D62" in rules:
                 # S.get_domains().flat_map(|v| { STMTS; [E1, .., En] }).collect::<Vec<_>>()  =>  push loop: STMTS, then one push per item
                 seg = src[it["start"]:it["end"]]
